@@ -242,7 +242,7 @@ func init() {
 		c.Run.Set("lattice_edges_checked", edges)
 
 		// the filtering proxy acts on the option the modifiers define
-		proxyMods := []string{"elemhide", "generichide", "jsinject", "document", "important"}
+		proxyMods := []string{"elemhide", "generichide", "jsinject", "document", "important", "content"}
 		if c.Thorough() {
 			proxyMods = c16Mods
 		}
@@ -270,6 +270,25 @@ func init() {
 			if got != rules.CosmeticOptionAll {
 				c.Run.Violate(ev.Violation{Pred: "blocking-rule-keeps-all", Sig: map[string]any{"rule": text},
 					What: fmt.Sprintf("blocking basic rule %q gives option %03b", text, got), Replay: map[string]any{"mods": []string{}}})
+			}
+		}
+		// no basic rule, document-level exceptions matching the referrer only: everything stays enabled
+		for mask := 1; mask < 1<<n; mask++ {
+			var mods []string
+			for i := 0; i < n; i++ {
+				if mask&(1<<i) != 0 {
+					mods = append(mods, c16Mods[i])
+				}
+			}
+			sr, perr := rules.NewNetworkRule(c16RuleText(mods), 1)
+			if perr != nil {
+				continue
+			}
+			c.Run.Add("evaluations", 1)
+			if got := rules.NewMatchingResult(nil, []*rules.NetworkRule{sr}).GetCosmeticOption(); got != rules.CosmeticOptionAll {
+				c.Run.Violate(ev.Violation{Pred: "nil-rule-keeps-all", Sig: map[string]any{"referrer_rule_mods": mods},
+					What: fmt.Sprintf("no basic rule, referrer-level rule %q: option %03b, expected everything enabled", c16RuleText(mods), got), Replay: map[string]any{"mods": mods}})
+				break
 			}
 		}
 		if got := rules.NewMatchingResult(nil, nil).GetCosmeticOption(); got != rules.CosmeticOptionAll {
